@@ -886,7 +886,9 @@ fn assignable_call<'t>(ctx: Context<'t>, callee: Assignable) -> ParseResult<'t, 
 /// Parse an [AssignableKind::Index].
 fn assignable_index<'t>(ctx: Context<'t>, indexed: Assignable) -> ParseResult<'t, Assignable> {
     let span = ctx.span();
-    let mut ctx = expect!(ctx, T::LeftBracket, "Expected '[' when indexing");
+    let ctx = expect!(ctx, T::LeftBracket, "Expected '[' when indexing");
+    // Line breaks inside the brackets are insignificant, as in a call's argument list.
+    let (mut ctx, newlines) = ctx.push_skip_newlines(true);
 
     let expr =
         if let (_ctx, expr @ Expression { kind: ExpressionKind::Int(_), .. }) = expression(ctx)? {
@@ -895,6 +897,7 @@ fn assignable_index<'t>(ctx: Context<'t>, indexed: Assignable) -> ParseResult<'t
         } else {
             raise_syntax_error!(ctx, "Expected 'int' when parsing tuple indexing");
         };
+    let ctx = ctx.pop_skip_newlines(newlines);
     let ctx = expect!(ctx, T::RightBracket, "Expected ']' after index");
 
     use AssignableKind::Index;
